@@ -554,11 +554,21 @@ def program_key_paths(spec):
             if isinstance(n.get("dispatch"), str):
                 out.add(n["dispatch"])
             for f in ("options", "default_options"):
-                out.update(U.all_paths(n.get(f) or {}))
+                out.update(_preset_paths(n.get(f) or {}))
         elif k in ("withopts", "derive"):
-            out.update(U.all_paths(n["options"]))
+            out.update(_preset_paths(n["options"]))
         elif k == "map":
             out.update(n["iterables"])
+    return out
+
+
+def _preset_paths(d):
+    """Paths of a pre-set dictionary plus the keys its templated values refer to."""
+    out = set(U.all_paths(d))
+    for p in list(out):
+        v = U.lookup(p, d)[1]
+        if isinstance(v, str):
+            out.update(U.template_refs(v))
     return out
 
 
